@@ -15,9 +15,9 @@ func StMsg(m *sipsp.PSIPMsg) uint32 {
 	if n < len(m.HL.Hdrs) {
 		st |= uint32(m.HL.Hdrs[n].VerifState()) << 16
 	} else {
-		st |= uint32(m.HL.VerifScratchState()) << 16
+		st |= (0x80 | uint32(m.HL.VerifScratchState())) << 16
 	}
-	st |= uint32(m.FL.VerifState()) << 8
+	st |= uint32(m.FL.VerifState()) << 12
 	return st
 }
 func StFLine(p *sipsp.PFLine) uint32                  { return uint32(p.VerifState()) }
